@@ -98,6 +98,13 @@ def run_bringup(ncp_v, path_kind="serial", second_reset=False, fault=None):
         try:
             if tag == "first":
                 await s.ez.startup_reset()
+            elif second_reset == "app":
+                # what ControllerApplication._reset() does; on a socket path on which the start-up reset is seen the NCP
+                # (zigbeed) restarts by itself during the start-up wait of this second round too
+                s.ez.stop_ezsp()
+                if path_kind == "socket-seen":
+                    s.loop.call_later(0.3, lambda: (s.ncp.reset(0x0B), s.line.flush()))
+                await s.ez.startup_reset()
             else:
                 await s.ez.reset()
                 await s.ez.version()
@@ -178,6 +185,8 @@ class Check(PropertyCheck):
             for path in ("serial", "socket-seen", "socket-late", "socket-absent"):
                 for second in (False, True):
                     cases.append({"v": v, "path": path, "second": second, "fault": None})
+                # the later reset as the application performs it: stop_ezsp() + startup_reset() on the same EZSP object
+                cases.append({"v": v, "path": path, "second": "app", "fault": None})
         # every single fault on the first frames of each direction (the reset handshake and the version exchange)
         for v in ((4, 13) if tier == "quick" else (4, 7, 8, 13, 14, 15)):
             for path in ("serial", "socket-seen", "socket-late", "socket-absent"):
